@@ -2,7 +2,7 @@
 
 use super::{Error, Lint, Note};
 use crate::ast::Ast;
-use crate::grammar::{attributes, Attributable, Entity};
+use crate::grammar::{attributes, Attributable, Contained, Entities, Entity, NamedSymbol, Parameter, Symbol};
 use crate::slice_file::{SliceFile, Span};
 use crate::slice_options::SliceOptions;
 
@@ -192,7 +192,23 @@ impl Diagnostics {
 
                 // If the diagnostic has a scope, check if it's affected by an `allow` attribute in that scope.
                 if let Some(scope) = diagnostic.scope() {
-                    if let Ok(entity) = ast.find_element::<dyn Entity>(scope) {
+                    if let Ok(mut entity) = ast.find_element::<dyn Entity>(scope) {
+                        // Parameters and return members share a scope, so a parameter and a return member of the same
+                        // operation can have the same scoped identifier (and only one of them can be looked up by it).
+                        // If so, the lint belongs to whichever of them its span lies within.
+                        let found = (entity.concrete_entity(), diagnostic.span());
+                        if let (Entities::Parameter(found), Some(span)) = found {
+                            let operation = found.parent();
+                            let mut members = operation.parameters().into_iter().chain(operation.return_members());
+                            let is_owner = |member: &&Parameter| {
+                                member.identifier() == found.identifier()
+                                    && member.span().file == span.file
+                                    && span.start.is_within(member.span())
+                            };
+                            if let Some(owner) = members.find(is_owner) {
+                                entity = owner;
+                            }
+                        }
                         if is_lint_allowed_by_attributes(entity, lint) {
                             diagnostic.level = DiagnosticLevel::Allowed;
                         }
